@@ -55,6 +55,7 @@ type parser struct {
 	messages      []*ast.DataMessage // parsed messages
 	errors        []parseError       // parsing errors
 	warnings      []parseError       // parsing warnings
+	placeholder   string             // text standing in for ASCII items with a duplicated variable name
 }
 
 type parseError struct {
@@ -451,7 +452,12 @@ func (p *parser) parseASCII(minLength, maxLength int) (item ast.ItemNode, ok boo
 					// no item can be longer; do not build a placeholder of an input-chosen size
 					minLength = ast.MAX_BYTE_SIZE
 				}
-				return ast.NewASCIINode(strings.Repeat("*", minLength)), true
+				// all placeholders share one text: an input that repeats the name must not cost
+				// (number of duplicates) x (declared size) bytes
+				if len(p.placeholder) < minLength {
+					p.placeholder = strings.Repeat("*", minLength)
+				}
+				return ast.NewASCIINode(p.placeholder[:minLength]), true
 			} else {
 				p.variableNames[t.val] = true
 				return ast.NewASCIINodeVariable(t.val, minLength, maxLength), true
